@@ -16,9 +16,17 @@
               source-code identifiers a tree-sitter parser extracts from it (create_ident_dict)
      cfg    = an identifier of the client's settings object (paths of the dictionary files are fixed)
      word   = an identifier of a dictionary word
-     diagnostics are represented by their *provenance* `dargs`: the text, language, dictionary,
-     linter configuration, parse configuration, severity configuration and ignore list they were
-     computed from (DocumentState::generate_diagnostics is a function of exactly these). *)
+     version = nat (textDocument.version; the clients considered number their messages from 0 upwards)
+     diagnostics are represented by their *provenance* `dargs`: the text, language, the dictionary of
+     the linter, the dictionary the document was parsed with, linter configuration, parse configuration,
+     severity configuration and ignore list they were computed from
+     (DocumentState::generate_diagnostics is a function of exactly these).
+
+   State of /repo modelled: after `fix: an update with an older document version never replaces a newer
+   text` (DocumentState.version, the check sits AFTER the dictionary/linter refresh and BEFORE the
+   language test; updates from a file carry no version), `fix: the identifier dictionary of a source file
+   survives later updates` (DocumentState.base_dict) and `fix: save_dict writes to a temporary file and
+   renames it over the dictionary` (no truncated dictionary file is ever visible). *)
 Require Import Base.
 
 (* ---------- urls, languages, texts, dictionaries ---------- *)
@@ -74,7 +82,9 @@ Definition dictv_eqb (a b : dictv) : bool :=
 
 (* ---------- published diagnostics, by provenance ---------- *)
 Record dargs := mkargs {
-  a_text : text; a_lang : lang; a_dict : dictv;
+  a_text : text; a_lang : lang;
+  a_dict : dictv;    (* dictionary of the LintGroup (SpellCheck::dictionary) *)
+  a_ddict : dictv;   (* dictionary the Document was parsed with (word metadata, CollapseIdentifiers) *)
   a_lcfg : cfg;      (* lint_config + dialect the LintGroup was built with *)
   a_pcfg : cfg;      (* markdown options + isolate_english the Document was parsed with *)
   a_scfg : cfg;      (* diagnostic_severity at publish time *)
@@ -117,10 +127,14 @@ Record entry := mkentry {
   e_lcfg : cfg;               (* configuration the linter was built with *)
   e_text : option text;       (* document (None = Default::default(), the empty document) *)
   e_pcfg : cfg;               (* configuration the document was parsed with *)
-  e_ign : list nat            (* ignored_lints *)
+  e_ign : list nat;           (* ignored_lints *)
+  e_base : dictv;             (* base_dict: what was loaded from the dictionary files last time *)
+  e_ddict : dictv;            (* the dictionary `document` was parsed with: Document::new(text, &parser, &doc_state.dict) *)
+  e_ver : option nat          (* version *)
 }.
 
-Record cdoc := mkcdoc { cd_lang : lang; cd_text : text; cd_ign : list nat }.
+(* cd_ver: the version the client sent with its last didOpen / didChange for the document *)
+Record cdoc := mkcdoc { cd_lang : lang; cd_text : text; cd_ign : list nat; cd_ver : nat }.
 
 (* ---------- the world: client, file system, server ---------- *)
 Record world := mkworld {
@@ -157,8 +171,8 @@ Definition add_word (x : word) (l : list word) : list word :=
 
 (* ---------- operations of the client ---------- *)
 Inductive op :=
-| Open (u : url) (l : lang) (t : text)
-| Change (u : url) (t : text)
+| Open (u : url) (l : lang) (t : text) (v : nat)
+| Change (u : url) (t : text) (v : nat)
 | Save (u : url)
 | Close (u : url)
 | Delete (tg : target)
@@ -171,10 +185,10 @@ Inductive op :=
 (* what the client (and the file system) does when it sends the message *)
 Definition client_effect (o : op) (w : world) : world :=
   match o with
-  | Open u l t => set_open (upsert u (mkcdoc l t []) (w_open w)) w
-  | Change u t =>
+  | Open u l t v => set_open (upsert u (mkcdoc l t [] v) (w_open w)) w
+  | Change u t v =>
       match lookup u (w_open w) with
-      | Some cd => set_open (upsert u (mkcdoc (cd_lang cd) t (cd_ign cd)) (w_open w)) w
+      | Some cd => set_open (upsert u (mkcdoc (cd_lang cd) t (cd_ign cd) v) (w_open w)) w
       | None => w
       end
   | Save u =>
@@ -188,7 +202,7 @@ Definition client_effect (o : op) (w : world) : world :=
         (set_disk (filter (fun kv => negb (matches tg (fst kv))) (w_disk w)) w)
   | Ignore u k =>
       match lookup u (w_open w) with
-      | Some cd => set_open (upsert u (mkcdoc (cd_lang cd) (cd_text cd) (ins k (cd_ign cd))) (w_open w)) w
+      | Some cd => set_open (upsert u (mkcdoc (cd_lang cd) (cd_text cd) (ins k (cd_ign cd)) (cd_ver cd)) (w_open w)) w
       | None => w
       end
   | CfgChange c _ => set_ccfg c w
@@ -205,18 +219,20 @@ Record locals := mklocals {
   l_ud : list word;         (* user dictionary as read *)
   l_fd : list word;         (* file dictionary as read *)
   l_word : word;
-  l_queue : list url
+  l_queue : list url;
+  l_ver : option nat        (* version argument of update_document (None: text re-read from the file) *)
 }.
-Definition loc0 (u : url) : locals := mklocals u None None 0 0 [] [] 0 [].
-Definition lset_url u l := mklocals u (l_text l) (l_lang l) (l_ans l) (l_snap l) (l_ud l) (l_fd l) (l_word l) (l_queue l).
-Definition lset_text t l := mklocals (l_url l) t (l_lang l) (l_ans l) (l_snap l) (l_ud l) (l_fd l) (l_word l) (l_queue l).
-Definition lset_lang g l := mklocals (l_url l) (l_text l) g (l_ans l) (l_snap l) (l_ud l) (l_fd l) (l_word l) (l_queue l).
-Definition lset_ans c l := mklocals (l_url l) (l_text l) (l_lang l) c (l_snap l) (l_ud l) (l_fd l) (l_word l) (l_queue l).
-Definition lset_snap c l := mklocals (l_url l) (l_text l) (l_lang l) (l_ans l) c (l_ud l) (l_fd l) (l_word l) (l_queue l).
-Definition lset_ud d l := mklocals (l_url l) (l_text l) (l_lang l) (l_ans l) (l_snap l) d (l_fd l) (l_word l) (l_queue l).
-Definition lset_fd d l := mklocals (l_url l) (l_text l) (l_lang l) (l_ans l) (l_snap l) (l_ud l) d (l_word l) (l_queue l).
-Definition lset_word x l := mklocals (l_url l) (l_text l) (l_lang l) (l_ans l) (l_snap l) (l_ud l) (l_fd l) x (l_queue l).
-Definition lset_queue q l := mklocals (l_url l) (l_text l) (l_lang l) (l_ans l) (l_snap l) (l_ud l) (l_fd l) (l_word l) q.
+Definition loc0 (u : url) : locals := mklocals u None None 0 0 [] [] 0 [] None.
+Definition lset_url u l := mklocals u (l_text l) (l_lang l) (l_ans l) (l_snap l) (l_ud l) (l_fd l) (l_word l) (l_queue l) (l_ver l).
+Definition lset_text t l := mklocals (l_url l) t (l_lang l) (l_ans l) (l_snap l) (l_ud l) (l_fd l) (l_word l) (l_queue l) (l_ver l).
+Definition lset_lang g l := mklocals (l_url l) (l_text l) g (l_ans l) (l_snap l) (l_ud l) (l_fd l) (l_word l) (l_queue l) (l_ver l).
+Definition lset_ans c l := mklocals (l_url l) (l_text l) (l_lang l) c (l_snap l) (l_ud l) (l_fd l) (l_word l) (l_queue l) (l_ver l).
+Definition lset_snap c l := mklocals (l_url l) (l_text l) (l_lang l) (l_ans l) c (l_ud l) (l_fd l) (l_word l) (l_queue l) (l_ver l).
+Definition lset_ud d l := mklocals (l_url l) (l_text l) (l_lang l) (l_ans l) (l_snap l) d (l_fd l) (l_word l) (l_queue l) (l_ver l).
+Definition lset_fd d l := mklocals (l_url l) (l_text l) (l_lang l) (l_ans l) (l_snap l) (l_ud l) d (l_word l) (l_queue l) (l_ver l).
+Definition lset_word x l := mklocals (l_url l) (l_text l) (l_lang l) (l_ans l) (l_snap l) (l_ud l) (l_fd l) x (l_queue l) (l_ver l).
+Definition lset_queue q l := mklocals (l_url l) (l_text l) (l_lang l) (l_ans l) (l_snap l) (l_ud l) (l_fd l) (l_word l) q (l_ver l).
+Definition lset_ver v l := mklocals (l_url l) (l_text l) (l_lang l) (l_ans l) (l_snap l) (l_ud l) (l_fd l) (l_word l) (l_queue l) v.
 
 Inductive instr :=
 (* update_document *)
@@ -235,8 +251,8 @@ Inductive instr :=
 (* publish_diagnostics *)
 | IPublish
 (* execute_command *)
-| ILoadUD | ITruncUD | IWriteUD     (* load_user_dictionary; save_dict = File::create, then write+flush *)
-| ILoadFD | ITruncFD | IWriteFD
+| ILoadUD | ITmpUD | IWriteUD     (* load_user_dictionary; save_dict = write a temporary sibling, then rename it over the file *)
+| ILoadFD | ITmpFD | IWriteFD
 | IIgnore (k : nat)
 | IRecord
 (* did_close / did_change_watched_files: the mutex guard lives to the end of the function *)
@@ -251,19 +267,30 @@ Inductive instr :=
 
 Definition update_seq : list instr := [ICfgReq; IAnswer; IRecv; ISnap; IReadUD; IReadFD; IUpdate].
 
-Definition new_entry (lg : option lang) (d : dictv) (c : cfg) : entry := mkentry lg d 0 c None c [].
-Definition e_set_dict d c e := mkentry (e_lang e) d (e_ident e) c (e_text e) (e_pcfg e) (e_ign e).
-Definition e_set_ident i e := mkentry (e_lang e) (e_dict e) i (e_lcfg e) (e_text e) (e_pcfg e) (e_ign e).
-Definition e_set_lcfg c e := mkentry (e_lang e) (e_dict e) (e_ident e) c (e_text e) (e_pcfg e) (e_ign e).
-Definition e_set_doc t c e := mkentry (e_lang e) (e_dict e) (e_ident e) (e_lcfg e) (Some t) c (e_ign e).
-Definition e_add_ign k e := mkentry (e_lang e) (e_dict e) (e_ident e) (e_lcfg e) (e_text e) (e_pcfg e) (ins k (e_ign e)).
+Definition new_entry (lg : option lang) (d : dictv) (c : cfg) : entry := mkentry lg d 0 c None c [] d d None.
+(* a new merged dictionary + a new linter (use_ident_dict) *)
+Definition e_set_dict d c e := mkentry (e_lang e) d (e_ident e) c (e_text e) (e_pcfg e) (e_ign e) (e_base e) (e_ddict e) (e_ver e).
+Definition e_set_ident i e := mkentry (e_lang e) (e_dict e) i (e_lcfg e) (e_text e) (e_pcfg e) (e_ign e) (e_base e) (e_ddict e) (e_ver e).
+Definition e_set_lcfg c e := mkentry (e_lang e) (e_dict e) (e_ident e) c (e_text e) (e_pcfg e) (e_ign e) (e_base e) (e_ddict e) (e_ver e).
+(* doc_state.document = Document::new(text, &parser, &doc_state.dict) *)
+Definition e_set_doc t c e := mkentry (e_lang e) (e_dict e) (e_ident e) (e_lcfg e) (Some t) c (e_ign e) (e_base e) (e_dict e) (e_ver e).
+Definition e_add_ign k e := mkentry (e_lang e) (e_dict e) (e_ident e) (e_lcfg e) (e_text e) (e_pcfg e) (ins k (e_ign e)) (e_base e) (e_ddict e) (e_ver e).
+Definition e_set_ver v e := mkentry (e_lang e) (e_dict e) (e_ident e) (e_lcfg e) (e_text e) (e_pcfg e) (e_ign e) (e_base e) (e_ddict e) v.
+(* `if doc_state.base_dict != dict { base_dict = dict; dict = dict; ident_dict = Default; linter = new }` *)
+Definition e_rebase d c e := mkentry (e_lang e) d 0 c (e_text e) (e_pcfg e) (e_ign e) d (e_ddict e) (e_ver e).
+Definition rebase d c e := if dictv_eqb (e_base e) d then e else e_rebase d c e.
+(* `if let (Some(new), Some(current)) = (version, doc_state.version) { if new < current { return } }` *)
+Definition stale (nv cv : option nat) : bool :=
+  match nv, cv with Some n, Some c => n <? c | _, _ => false end.
+(* `if version.is_some() { doc_state.version = version }` *)
+Definition bump (nv : option nat) (e : entry) : entry := match nv with Some _ => e_set_ver nv e | None => e end.
 
 (* what publish_diagnostics(url) sends: generate_diagnostics on the entry, [] when there is none *)
 Definition pubval (w : world) (u : url) : pub :=
   match lookup u (s_docs w) with
   | Some e =>
       match e_text e, e_lang e with
-      | Some t, Some lg => PDiag (mkargs t lg (e_dict e) (e_lcfg e) (e_pcfg e) (s_cfg w) (e_ign e))
+      | Some t, Some lg => PDiag (mkargs t lg (e_dict e) (e_ddict e) (e_lcfg e) (e_pcfg e) (s_cfg w) (e_ign e))
       | _, _ => PEmpty
       end
   | None => PEmpty
@@ -291,18 +318,21 @@ Definition exec (i : instr) (l : locals) (w : world) : option (list instr * loca
       | Some t =>
         let d := mkdict (l_ud l) (l_fd l) 0 in
         let e0 := match lookup u (s_docs w) with Some e => e | None => new_entry (l_lang l) d (l_snap l) end in
-        let e1 := if dictv_eqb (e_dict e0) d then e0 else e_set_dict d (l_snap l) e0 in
-        match e_lang e1 with
+        let e1 := rebase d (l_snap l) e0 in
+        (* the version check: after the dictionary / linter refresh, before the language test *)
+        if stale (l_ver l) (e_ver e1) then Some ([], l, set_docs (upsert u e1 (s_docs w)) w) else
+        let e2 := bump (l_ver l) e1 in
+        match e_lang e2 with
         | None => Some ([], l, set_docs (remove u (s_docs w)) w)
         | Some lg =>
           match kind lg with
           | KNone => Some ([], l, set_docs (remove u (s_docs w)) w)
-          | KPlain => Some ([], l, set_docs (upsert u (e_set_doc t (l_snap l) e1) (s_docs w)) w)
+          | KPlain => Some ([], l, set_docs (upsert u (e_set_doc t (l_snap l) e2) (s_docs w)) w)
           | KCode =>
-              if e_ident e1 =? t_ident t
-              then Some ([], l, set_docs (upsert u (e_set_doc t (l_snap l) e1) (s_docs w)) w)
+              if e_ident e2 =? t_ident t
+              then Some ([], l, set_docs (upsert u (e_set_doc t (l_snap l) e2) (s_docs w)) w)
               else Some ([IIdentUD; IIdentFD; IIdentFinish], l,
-                         set_lock true (set_docs (upsert u (e_set_ident (t_ident t) e1) (s_docs w)) w))
+                         set_lock true (set_docs (upsert u (e_set_ident (t_ident t) e2) (s_docs w)) w))
           end
         end
       end
@@ -316,18 +346,18 @@ Definition exec (i : instr) (l : locals) (w : world) : option (list instr * loca
   | IReadFile =>
       if is_file u then
         match lookup u (w_disk w) with
-        | Some t => Some (update_seq, lset_lang None (lset_text (Some t) l), w)
+        | Some t => Some (update_seq, lset_ver None (lset_lang None (lset_text (Some t) l)), w)
         | None => Some ([], l, w)
         end
       else Some ([], l, w)
   | IPublish => if s_lock w then None else Some ([], l, send u (pubval w u) w)
-  | ITruncUD => Some ([], l, set_udict [] w)
+  | ITmpUD => Some ([], l, w)
   | IWriteUD => Some ([], l, set_udict (add_word (l_word l) (l_ud l)) w)
   | ILoadFD =>
       (* untitled: Ok(empty); save_file_dictionary then fails in file_dict_name, nothing is written *)
-      if is_file u then Some ([ITruncFD; IWriteFD], lset_fd (fdict_of w u) l, w)
+      if is_file u then Some ([ITmpFD; IWriteFD], lset_fd (fdict_of w u) l, w)
       else Some ([], lset_fd [] l, w)
-  | ITruncFD => Some ([], l, set_fdict (upsert u [] (w_fdict w)) w)
+  | ITmpFD => Some ([], l, w)
   | IWriteFD => Some ([], l, set_fdict (upsert u (add_word (l_word l) (l_fd l)) (w_fdict w)) w)
   | IIgnore k =>
       if s_lock w then None else
@@ -365,11 +395,11 @@ Definition exec (i : instr) (l : locals) (w : world) : option (list instr * loca
 (* the handler of each message: its first instrs and its arguments *)
 Definition prog (o : op) : list instr :=
   match o with
-  | Open _ _ _ | Change _ _ => update_seq ++ [IPublish]
+  | Open _ _ _ _ | Change _ _ _ => update_seq ++ [IPublish]
   | Save _ => [IReadFile; IPublish]
   | Close _ => [IClose; IUnlock]
   | Delete tg => [IDelete tg; IUnlock]
-  | AddUser _ _ => [ILoadUD; ITruncUD; IWriteUD; IReadFile; IPublish]
+  | AddUser _ _ => [ILoadUD; ITmpUD; IWriteUD; IReadFile; IPublish]
   | AddFile _ _ => [ILoadFD; IReadFile; IPublish]
   | Ignore _ k => [IIgnore k]
   | RecordLint => [IRecord]
@@ -379,8 +409,8 @@ Definition prog (o : op) : list instr :=
 Definition no_url : url := UUntitled 0.
 Definition locals_of (o : op) : locals :=
   match o with
-  | Open u lg t => lset_lang (Some lg) (lset_text (Some t) (loc0 u))
-  | Change u t => lset_text (Some t) (loc0 u)
+  | Open u lg t v => lset_ver (Some v) (lset_lang (Some lg) (lset_text (Some t) (loc0 u)))
+  | Change u t v => lset_ver (Some v) (lset_text (Some t) (loc0 u))
   | Save u | Close u | Ignore u _ => loc0 u
   | AddUser x u | AddFile x u => lset_word x (loc0 u)
   | Delete _ | RecordLint | CfgChange _ _ => loc0 no_url
@@ -525,9 +555,8 @@ Definition expected (w : world) (u : url) : pub :=
       match kind (cd_lang cd) with
       | KNone => PEmpty
       | k =>
-          PDiag (mkargs (cd_text cd) (cd_lang cd)
-                   (mkdict (w_udict w) (fdict_of w u) (match k with KCode => t_ident (cd_text cd) | _ => 0 end))
-                   (w_ccfg w) (w_ccfg w) (w_ccfg w) (cd_ign cd))
+          let d := mkdict (w_udict w) (fdict_of w u) (match k with KCode => t_ident (cd_text cd) | _ => 0 end) in
+          PDiag (mkargs (cd_text cd) (cd_lang cd) d d (w_ccfg w) (w_ccfg w) (w_ccfg w) (cd_ign cd))
       end
   | None => PEmpty
   end.
@@ -538,7 +567,7 @@ Definition fresh (w : world) (u : url) : Prop := lastword w u = expected w u.
 Definition text_eqb (a b : text) : bool := (t_id a =? t_id b) && (t_ident a =? t_ident b).
 Definition dargs_eqb (a b : dargs) : bool :=
   text_eqb (a_text a) (a_text b) && lang_eqb (a_lang a) (a_lang b) && dictv_eqb (a_dict a) (a_dict b)
-  && (a_lcfg a =? a_lcfg b) && (a_pcfg a =? a_pcfg b) && (a_scfg a =? a_scfg b) && list_eqb (a_ign a) (a_ign b).
+  && dictv_eqb (a_ddict a) (a_ddict b) && (a_lcfg a =? a_lcfg b) && (a_pcfg a =? a_pcfg b) && (a_scfg a =? a_scfg b) && list_eqb (a_ign a) (a_ign b).
 Definition pub_eqb (p q : pub) : bool :=
   match p, q with
   | PEmpty, PEmpty => true
@@ -546,6 +575,20 @@ Definition pub_eqb (p q : pub) : bool :=
   | _, _ => false
   end.
 Definition freshb (w : world) (u : url) : bool := pub_eqb (lastword w u) (expected w u).
+
+(* What of the two dictionaries shows in the diagnostics: SpellCheck accepts a word iff the document's
+   token carries metadata (the word was in the dictionary the document was parsed with) and the linter's
+   dictionary contains it.  Used by the driver only (the theorems speak about the full provenance). *)
+Definition meet_words (a b : list word) : list word := filter (fun x => existsb (Nat.eqb x) b) a.
+Definition meet (a b : dictv) : dictv :=
+  mkdict (meet_words (dv_user a) (dv_user b)) (meet_words (dv_file a) (dv_file b))
+         (if dv_ident a =? dv_ident b then dv_ident a else 0).
+Definition observe (p : pub) : pub :=
+  match p with
+  | PEmpty => PEmpty
+  | PDiag a => let m := meet (a_dict a) (a_ddict a) in
+               PDiag (mkargs (a_text a) (a_lang a) m m (a_lcfg a) (a_pcfg a) (a_scfg a) (a_ign a))
+  end.
 
 Definition world0 (c : cfg) : world := mkworld [] c [] [] [] c [] false [].
 
